@@ -47,7 +47,7 @@ class Budget(Exception):
 
 
 class CallEvent:
-    __slots__ = ("callee", "key", "args", "result", "block", "line", "idx", "inlined", "macro", "dest_ty")
+    __slots__ = ("callee", "key", "args", "result", "block", "line", "idx", "inlined", "macro", "dest_ty", "_renamed")
 
     def __init__(self, callee, key, args, block, line):
         self.callee = callee
@@ -865,6 +865,22 @@ class Analysis:
         args = [frame.operand(a) for a in t["args"]]
         if override is not None:
             f, args = override
+        elif "indirect" in f:
+            # a call through a function pointer whose value is known (a function item or closure passed down to an inlined helper)
+            try:
+                fv = frame.operand(f["indirect"])
+            except Exception:
+                fv = None
+            n = 0
+            while isinstance(fv, tuple) and fv[0] == "cast" and n < 3:
+                fv = fv[2]
+                n += 1
+            if isinstance(fv, tuple) and fv[0] == "fn":
+                f = self._fn_callee(fv)
+            elif isinstance(fv, tuple) and fv[0] == "closure" and getattr(self.policy, "higher_order", True):
+                r = self._apply(frame, t, path, bb, fv, args)
+                if r is not None:
+                    return r
         if "indirect" in f:
             key = "<indirect>"
         else:
@@ -914,6 +930,11 @@ class Analysis:
             self.eng.stats["inlined"] += 1
             sub = Analysis(self.eng, self.policy)
             outs = sub.run(target, args, frame.depth + 1, parent=frame)
+            # a generic helper names its type parameters its own way (`T`, `F`): present its calls in the caller's terms
+            gens, gargs = target.get("generics") or [], f.get("resolved_args") or f.get("args") or []
+            gmap = {g: a for g, a in zip(gens, gargs) if g != a and not g.startswith("'") and re.match(r"^\w+$", g)}
+            if gmap:
+                outs = [_rename_generics(o, gmap) for o in outs]
             return self._merge_outs(frame, t, path, outs, target["path"])
         return self._opaque(frame, t, ev, path, key, args)
 
@@ -1370,6 +1391,46 @@ def std_model(an, frame, ev, path):
     if d == "std::ops::Deref::deref" and st and st.startswith("&"):
         return _unref(frame, a[0])
     return None
+
+
+def _rename_generics(o, gmap):
+    """rewrite type-parameter names inside every path/type string of an inlined callee's outcome"""
+    rx = re.compile(r"(?<![\w:])(" + "|".join(re.escape(g) for g in sorted(gmap, key=len, reverse=True)) + r")(?![\w])")
+    memo = {}
+
+    def fs(x):
+        if isinstance(x, str):
+            return rx.sub(lambda m: gmap[m.group(1)], x) if rx.search(x) else x
+        if isinstance(x, tuple):
+            k = id(x)
+            if k in memo:
+                return memo[k][1]
+            if x and x[0] in ("int", "local", "str"):
+                return x
+            r = tuple(fs(y) for y in x)
+            memo[k] = (x, r)
+            return r
+        if isinstance(x, list):
+            return [fs(y) for y in x]
+        return x
+    o.guards = [fs(g) for g in o.guards]
+    o.ret = fs(o.ret)
+    o.stores = [(fs(lv), fs(v)) for lv, v in o.stores]
+    for c in o.calls:
+        if getattr(c, "_renamed", None) is gmap:
+            continue
+        c.key = fs(c.key)
+        c.args = fs(c.args)
+        c.result = fs(c.result)
+        try:
+            c._renamed = gmap
+        except AttributeError:
+            pass
+    if getattr(o, "env", None) is not None:
+        o.env = {k: fs(v) for k, v in o.env.items()}
+    if getattr(o, "foreign_writes", None):
+        o.foreign_writes = {fs(k): fs(v) for k, v in o.foreign_writes.items()}
+    return o
 
 
 def _some(x):
